@@ -27,9 +27,10 @@ class World:
         self.cols = {}  # abstract columns (incl. derived ones)
         self.names = {}  # cat column -> list of level names by code
         self.df = None
+        self.scale = {}  # numeric column -> factor by which its abstract (integer) cells are scaled
 
 
-def gen_world(rng, nmin=3, nmax=20, na_rate=0.0, na_cols=(), ordered_prob=0.5, force_levels=True, distinct=0):
+def gen_world(rng, nmin=3, nmax=20, na_rate=0.0, na_cols=(), ordered_prob=0.5, force_levels=True, distinct=0, quarters=False):
     w = World()
     n = w.n = rng.randint(nmin, nmax)
     data = {}
@@ -63,7 +64,12 @@ def gen_world(rng, nmin=3, nmax=20, na_rate=0.0, na_cols=(), ordered_prob=0.5, f
             vals = rng.sample(range(lo, hi + 1), distinct)
             for pos, val in zip(rng.sample(range(n), distinct), vals):
                 v[pos] = val
-        data[name] = np.array(v, dtype=np.int64)
+        if quarters and name == "x":
+            # non-integer data: x = v / 4 (exact binary fractions); the abstract cells stay the integers v
+            data[name] = np.array(v, dtype=float) / 4.0
+            w.scale[name] = 4
+        else:
+            data[name] = np.array(v, dtype=np.int64)
         w.cols[name] = {"kind": "num", "v": v, "decl": []}
 
     cat("f", rng.randint(2, 4))
@@ -96,6 +102,9 @@ def gen_world(rng, nmin=3, nmax=20, na_rate=0.0, na_cols=(), ordered_prob=0.5, f
     w.cols["I(x * 2)"] = {"kind": "num", "v": [2 * v for v in xv], "decl": []}
     w.cols["np.abs(x)"] = {"kind": "num", "v": [abs(v) for v in xv], "decl": []}
     w.cols["I(z + w)"] = {"kind": "num", "v": [a + b for a, b in zip(zv, w.cols["w"]["v"])], "decl": []}
+    if quarters:
+        w.scale["I(x * 2)"] = 4
+        w.scale["np.abs(x)"] = 4
     df = pd.DataFrame(data)
     # missing values
     if na_rate > 0:
@@ -144,6 +153,7 @@ def gen_formula(rng, groups=True, max_terms=4, resp="y", cat_comps=None, num_com
     cat_comps = cat_comps or CAT_COMPS
     num_comps = num_comps or NUM_COMPS
     terms = []
+    spelled = []  # (operator spelling, index of its first term)
     nterms = rng.randint(1, max_terms)
     for _ in range(nterms):
         arity = rng.choice([1, 1, 1, 2, 2, 3])
@@ -155,6 +165,16 @@ def gen_formula(rng, groups=True, max_terms=4, resp="y", cat_comps=None, num_com
             comps.remove(c)
         rng.shuffle(comps)
         if not comps:
+            continue
+        if len(comps) == 2 and rng.random() < 0.3 and not any(t in terms for t in ([comps[0]], [comps[1]], comps, comps[::-1])):
+            # the same terms spelled with an operator: several terms are built from the same components
+            a, b = comps
+            if rng.random() < 0.5:
+                spelled.append((f"{a}*{b}", len(terms)))
+                terms += [[a], [b], [a, b]]
+            else:
+                spelled.append((f"{a}/{b}", len(terms)))
+                terms += [[a], [a, b]]
             continue
         if len(comps) > 1 and rng.random() < hier:
             for c in comps:
@@ -168,7 +188,16 @@ def gen_formula(rng, groups=True, max_terms=4, resp="y", cat_comps=None, num_com
         if comps not in terms and not any(sorted(t) == sorted(comps) for t in terms):
             terms.append(comps)
     icpt = rng.random() < 0.75
-    parts = ([] if icpt else ["0"]) + [":".join(t) for t in terms]
+    parts = [] if icpt else ["0"]
+    k = 0
+    starts = {i: txt for txt, i in spelled}
+    while k < len(terms):
+        if k in starts:
+            parts.append(starts[k])
+            k += 3 if "*" in starts[k] else 2
+        else:
+            parts.append(":".join(terms[k]))
+            k += 1
     gterms = []
     if groups and rng.random() < 0.6:
         for _ in range(rng.randint(1, 2)):
@@ -257,16 +286,37 @@ def parse_group_label(s, w):
 EMPTY = {"labels": [], "data": [], "slices": [], "tcomps": []}
 
 
+def _label_factor(label, w, group=False):
+    pieces = (label[0] if group else label)
+    f = 1
+    for name, lvl in pieces:
+        if lvl == 0:
+            f *= w.scale.get(name, 1)
+    return f
+
+
+def scaled_int_matrix(dmx, labels, w, group=False):
+    """Cells as integers: a column whose label contains numeric pieces stored in scaled form is
+    multiplied by the product of their scales (exact: the scales are powers of two)."""
+    a = np.asarray(dmx, dtype=float)
+    if a.ndim == 1:
+        a = a[:, None]
+    if w.scale and a.shape[1] == len(labels):
+        a = a * np.array([_label_factor(l, w, group) for l in labels], dtype=float)[None, :]
+    return design.to_int_matrix(a)
+
+
 def matrix_event(mat, w, kind):
     """CommonEffectsMatrix / GroupEffectsMatrix / ResponseMatrix -> event part + view agreement."""
     if mat is None:
         return dict(EMPTY), True
     dmx = np.asarray(mat.design_matrix)
-    data = design.to_int_matrix(dmx)
+    data = None
     views = True
     if kind == "resp":
         labs = mat.term.term.labels or [mat.name]
         labels = [parse_label(l, w) for l in labs]
+        data = scaled_int_matrix(dmx, labels, w)
         try:
             dfv = mat.as_dataframe()
             views = views and list(dfv.columns) == list(labs) and np.array_equal(np.asarray(dfv, dtype=float), np.asarray(dmx, dtype=float).reshape(len(dfv), -1), equal_nan=True)
@@ -281,6 +331,7 @@ def matrix_event(mat, w, kind):
         labels = [parse_label(l, w) for l in labs]
     else:
         labels = [parse_group_label(l, w) for l in labs]
+    data = scaled_int_matrix(dmx, labels, w, group=(kind != "common"))
     slices = [[s.start, s.stop] for s in mat.slices.values()]
     tcomps = []
     for name, term in mat.terms.items():
